@@ -21,19 +21,34 @@ def pairs(tier, rnd, units):
     def add(u1, p1, u2, p2):
         s1 = u1['spec'] if p1 is None else common.with_prefix(u1['spec'], *p1)
         s2 = u2['spec'] if p2 is None else common.with_prefix(u2['spec'], *p2)
-        out.append({'id': 'p%d' % len(out), 'label': '%s vs %s' % (common.label(u1, p1), common.label(u2, p2)), 'cfg': {0: s1, 1: s2}})
+        e1 = common.exact_size(u1['spec'], p1); e2 = common.exact_size(u2['spec'], p2)
+        differ = '' if (e1 is None or e2 is None) else ('1' if e1 != e2 else '0')
+        cfg = {0: s1, 1: s2}
+        if differ: cfg[2] = differ
+        out.append({'id': 'p%d' % len(out), 'label': '%s vs %s' % (common.label(u1, p1), common.label(u2, p2)), 'cfg': cfg})
     byname = {u['name']: u for u in units}
-    # fixed pairs: same unit, prefix-only, the property's own example, an equal-size pair
+    # fixed pairs: same unit, prefix-only, the property's own example, equal-size pairs of distinct units (with and
+    # without a common prefix, incl. a non-power-of-two factor), two different prefixes of one unit incl. the extremes
     fixed = [('metre', None, 'metre', None), ('metre', None, 'metre', ('M', 3)), ('firkin', None, 'long_hundredweight', None),
-             ('hertz', None, 'becquerel', None), ('inch', None, 'metre', ('M', -2)), ('byte', ('I', 10), 'bit', None)]
+             ('hertz', None, 'becquerel', None), ('inch', None, 'metre', ('M', -2)), ('byte', ('I', 10), 'bit', None),
+             ('gray', ('M', -3), 'sievert', ('M', -3)), ('imperial_fluid_drachm', None, 'imperial_teaspoon', None), ('revolution', None, 'turn', None),
+             ('metre', ('M', 24), 'metre', ('M', 21)), ('second', ('M', -18), 'second', ('M', -21))]
+    if tier == 'thorough':
+        fixed += [('gram', ('M', 30), 'gram', ('M', 27)), ('metre', ('M', -27), 'metre', ('M', -30)), ('byte', ('I', 70), 'byte', ('I', 80)),
+                  ('hertz', ('M', -3), 'becquerel', ('M', -3)), ('lux', ('M', 3), 'nit', ('M', 3)), ('electronvolt', None, 'electronvolt', ('M', -3))]
     for a, pa, b, pb in fixed:
         if a in byname and b in byname: add(byname[a], pa, byname[b], pb)
     multi = [v for v in g.values() if len(v) >= 2]
-    n_rand = 4 if tier == 'quick' else 0
+    n_rand = 3 if tier == 'quick' else 0
     for _ in range(n_rand):
         grp = rnd.choice(multi); u1, u2 = rnd.sample(grp, 2)
         p1 = rnd.choice([None] + common.prefixed_variants(u1)) if rnd.random() < 0.4 else None
         add(u1, p1, u2, None)
+    # one unit under two different (seeded) prefixes
+    pref = [u for u in units if u['metric']]
+    for _ in range(1 if tier == 'quick' else 12):
+        u = rnd.choice(pref); p1, p2 = rnd.sample(common.prefixed_variants(u), 2)
+        add(u, p1, u, p2)
     if tier == 'thorough':
         for grp in multi:
             for u1 in grp:
